@@ -14,18 +14,19 @@ EXTENDS Naturals, Sequences, FiniteSets, TLC, Json
 CONSTANTS MaxOps, Fault, EmitCases
 
 Keys == {"k1", "k2", "kerr"}                   \* Twp/Rge/Sec strings; k1 is the one the probes use
-Probes == {"plss_nodir", "plss_full", "tract_build", "trs_attrs", "trs_dict", "find_twprge", "plss_qq", "trslist"}
+Probes == {"plss_nodir", "plss_full", "tract_build", "trs_attrs", "trs_dict", "find_twprge", "plss_qq", "trslist",
+           "plss_ocrlike", "tract_bareqq"}     \* (texts that only the optional OCR / clean_qq patterns would read)
 NS == {"n", "s"}   EW == {"e", "w"}
 Default == [ns |-> "n", ew |-> "w"]
 MutateVia == {"trs_to_dict_str", "trs_to_dict_obj", "tract_to_dict", "tracts_to_dict", "tracts_to_list", "flag_lists"}
-Others == {"o1", "o2"}
+Others == {"o1", "o2", "o3", "o4"}              \* o3: parsed with ocr_scrub, o4: parsed with clean_qq / find_twprge(ocr_scrub)
 \* which MasterConfig components a probe may depend on
 UsesNS(p) == p \in {"plss_nodir", "tract_build", "find_twprge"}
 UsesEW(p) == p \in {"tract_build", "find_twprge"}
 Pure(p, m) == [p |-> p, ns |-> IF UsesNS(p) THEN m.ns ELSE "-", ew |-> IF UsesEW(p) THEN m.ew ELSE "-"]
 \* which cache keys a probe reads
-Reads(p) == IF p = "find_twprge" THEN {} ELSE {"k1"}
-Warms(o) == IF o = "o1" THEN {"k1", "k2"} ELSE {"k2", "kerr"}
+Reads(p) == IF p \in {"find_twprge", "tract_bareqq"} THEN {} ELSE {"k1"}
+Warms(o) == IF o \in {"o1", "o3"} THEN {"k1", "k2"} ELSE {"k2", "kerr"}
 
 Op(name, a, b) == [name |-> name, a |-> a, b |-> b]
 VARIABLES mc, usecache, cache, result, hist
